@@ -102,6 +102,12 @@ def run(ctx):
     vectors = hc.sample_shapes(hc.gen_vectors(ctx, "res", 1, 1), frac, ctx.seed)
     cases2, pl2 = hc.run_family(ctx, "res", vectors)
     judge_res(ctx, cases2, nontrivial, hc.Explainer(ctx, "res", 1, 1))
+    # a parameter together with a cookie (the decoders share one error variable)
+    allv = hc.gen_vectors(ctx, "req", 1, 1, label="Gen req 1x1 (for pairs)")
+    wc = hc.combine_cases(ctx, allv, 60 if quick else 1500, ctx.seed, mode="withcookie")
+    casesw, plw = hc.run_family(ctx, "req", wc)
+    judge_req(ctx, casesw, nontrivial, hc.Explainer(ctx, "req", 2, 1))
+    ctx.cov["param_with_cookie_pairs"] = len(casesw)
     if not quick:
         uniq = hc.combine_cases(ctx, hc.gen_vectors(ctx, "req", 1, 1, label="Gen req 1x1 (for pairs)"), 4000, ctx.seed)
         cases3, pl3 = hc.run_family(ctx, "req", uniq)
